@@ -1,8 +1,12 @@
 SPECIFICATION Spec
 CONSTANT Instances <- AllInstances
+CONSTANT Refused <- RefusedInstances
 INVARIANT ZeroRowSums
 INVARIANT NonNegOffDiag
 INVARIANT Calibrated
 INVARIANT StationaryOK
 INVARIANT DetailedBal
 INVARIANT WordProbsSum
+INVARIANT AdmittedAreAdmissible
+INVARIANT RefusedAreNot
+INVARIANT RefusalJustified
